@@ -4,6 +4,7 @@ import (
 	"fmt"
 	"go/token"
 	"go/types"
+	"strings"
 
 	"mrocheck/an"
 
@@ -613,6 +614,13 @@ func ruleT9(c *an.Ctx) {
 		}
 		n++
 		raw := an.Strip(typeArg) == ssa.Value(t)
+		// name the arm by the expression kind it handles, not by how the value is spelled
+		if i := strings.Index(arm, ".(*"); i >= 0 {
+			rest := arm[i+3:]
+			if j := strings.IndexByte(rest, ')'); j > 0 {
+				arm = rest[:j]
+			}
+		}
 		c.Check("T9", "split-value-checked-against-collection-type("+arm+")@(*SplitExp).FindTypedRefs", in.Pos(), !raw,
 			"the element type of the split is handed unchanged to the FindTypedRefs of the value the split ranges over: the collection is checked against the type of one element, so a program the compiler accepted (split over a map or array literal behind a disabled pipeline) is refused when its call graph is built")
 	})
